@@ -79,7 +79,21 @@ pub fn check_stream(bytes: &[u8], kind: &str, exp: Option<&Expect>, obs: &mut Ob
                                     sd::avcc(cp, &mut dev);
                                 }
                                 b"hvcC" => {
-                                    sd::hvcc(cp, &mut dev);
+                                    if let Some(hc) = sd::hvcc(cp, &mut dev) {
+                                        // ISO/IEC 14496-15 8.3.3.1: general_profile_space / tier /
+                                        // profile_idc are those of the SPS the record carries (the
+                                        // first byte of its profile_tier_level, NAL byte 3; no
+                                        // emulation-prevention byte can precede it)
+                                        if let Some(sps) = hc.arrays.iter().find(|a| a.0 == 33).and_then(|a| a.2.first()) {
+                                            if sps.len() >= 4 && (sps[0] >> 1) & 0x3f == 33 {
+                                                let b = sps[3];
+                                                if (hc.profile_space, hc.tier, hc.profile_idc) != (b >> 6, b & 0x20 != 0, b & 0x1f) {
+                                                    dev.push("hvcC: general_profile_space / tier_flag / profile_idc disagree with the SPS in the record".into());
+                                                }
+                                                obs.count("hvcC_cross_checked_with_its_SPS", 1);
+                                            }
+                                        }
+                                    }
                                 }
                                 b"av1C" => {
                                     if let Some(c) = sd::av1c(cp, &mut dev) {
